@@ -55,6 +55,13 @@ void harness(void) {
     rc = cif_value_create(CIF_TABLE_KIND, &c); V_ASSUME(rc == CIF_OK);
 #endif
     m_n = 0;
+#if defined(PACKET) && defined(PRE_BY_CREATE)
+    /* the other way a packet comes to hold entries: cif_packet_create() with a name list ("_a", "_B", "_c"), all values unknown.
+     * A name given in already-normalised spelling is then held once and serves as both spellings. */
+    { static UChar pn[3][3] = { { '_', 'a', 0 }, { '_', 'B', 0 }, { '_', 'c', 0 } }; UChar *names[NPRE + 1];
+      for (e = 0; e < NPRE; e++) { names[e] = pn[e]; m_set(pn[e], 0, 1); } names[NPRE] = NULL;
+      C_FREE(c); c = NULL; rc = cif_packet_create(&c, names); V_ASSUME(rc == CIF_OK); }
+#else
     for (e = 0; e < NPRE; e++) {
         /* pre-inserted keys are concrete and pairwise inequivalent ("a", "B", "c" / "_a", "_B", "_c") so that the shape of the
          * container before the operation is concrete; values symbolic; the operation's key is symbolic */
@@ -63,6 +70,7 @@ void harness(void) {
         m_set(pk, t, 0);
         v->as_char.text[0] = (UChar) (t ^ 1); cif_value_free(v);        /* the container must hold its own copy */
     }
+#endif
 #ifdef KSEL
     /* concrete key per instance (driver enumerates KSEL): exact / case-variant / absent spellings */
     { static const UChar sel[6] = { 'a', 'A', 'B', 'b', 'c', 'z' }; k[KL - 1] = sel[KSEL]; k[KL] = 0; if (KL == 2) k[0] = '_'; }
